@@ -232,11 +232,28 @@ pub fn one_run(rng: &mut Rng, large: bool) -> Vec<Value> {
         ev.push(query_event(&ont, a, b));
     }
     // sub-ontologies: a root and 1..3 leaves, mostly below the root
-    for _ in 0..rng.range(1, 3) {
-        let root = *rng.pick(&order);
+    for q in 0..rng.range(3, 6) {
+        let mut root = *rng.pick(&order);
         let below: Vec<u32> = order.iter().copied().filter(|t| ont.hpo(*t).map(|x| x.all_parent_ids().contains(&HpoTermId::from(root)) || *t == root).unwrap_or(false)).collect();
         let mut leaves = BTreeSet::new();
-        for _ in 0..rng.range(1, 3) {
+        if q % 2 == 0 {
+            // targeted: a term with several parents together with one of its direct parents as leaves,
+            // below a common ancestor of both (the induced edge between the two leaves must survive)
+            let multi: Vec<u32> = order.iter().copied().filter(|t| ont.hpo(*t).map(|x| x.parent_ids().len() >= 2).unwrap_or(false)).collect();
+            if !multi.is_empty() {
+                let t = *rng.pick(&multi);
+                let term = ont.hpo(t).unwrap();
+                let ps: Vec<u32> = term.parent_ids().iter().map(|x| x.as_u32()).collect();
+                let p = *rng.pick(&ps);
+                let anc: Vec<u32> = ont.hpo(p).unwrap().all_parent_ids().iter().map(|x| x.as_u32()).collect();
+                if !anc.is_empty() {
+                    root = *rng.pick(&anc);
+                    leaves.insert(t);
+                    leaves.insert(p);
+                }
+            }
+        }
+        for _ in 0..rng.range(if leaves.is_empty() { 1 } else { 0 }, 2) {
             if rng.chance(1, 12) {
                 leaves.insert(*rng.pick(&order));
             } else {
